@@ -89,12 +89,19 @@ GlobalMon(e, la) ==
     /\ Chk("C06", "no_shared_objects", e, SumIds(e.st, 1) = Cardinality(AllIds(e.st)))
     /\ Chk("C03", "live_table_allocations", e, HasF(e, "par") \/ e.cost.live = SumTables(e.st, 1) + la)
 
+\* two snapshots of a slot describe the same map state (contents are only logged while the total
+\* number of elements is small, so "full" may differ between two snapshots of an untouched slot)
+Core(r) == <<r.len, r.cap, r.empty, r.mI, r.mC, r.mB, r.sp, r.oI, r.oB, r.cI, r.hm, r.hs, r.ty>>
+SameSlot(a, b) ==
+    /\ Core(a) = Core(b)
+    /\ (IsFull(a) /\ IsFull(b)) => (a.main = b.main /\ a.old = b.old /\ a.cur = b.cur)
+
 \* every slot other than those in W is bit-for-bit what it was (C11: no cross-slot effect;
 \* C02: read-only calls move nothing)
 Frame(e, W) ==
     /\ Chk("C11", "slot_set", e, SlotsOf(e.st) \ W = SlotsOf(snap) \ W)
     /\ \A s \in (SlotsOf(e.st) \cap SlotsOf(snap)) \ W :
-           Chk("C11,C02", "untouched_slot_unchanged", e, SlotR(e.st, s) = SlotR(snap, s))
+           Chk("C11,C02", "untouched_slot_unchanged", e, SameSlot(SlotR(e.st, s), SlotR(snap, s)))
 
 \* the map dropped exactly D during the call (each object once)
 DropsAre(e, D) ==
@@ -253,7 +260,7 @@ H_Capacity(e) ==
                  ELSE Chk("C10", "try_reserve_err_only_on_overflow", e,
                           e.op = "TryReserve" /\ ~small /\ e.res.t = "err_overflow")
               /\ Chk("C02", "reserve_fast_path_is_free", e,
-                     (small /\ pre.mC - pre.mI > pre.oI + e.n) => (e.cost.h = 0 /\ AL(e) = 0 /\ post = pre))
+                     (small /\ pre.mC - pre.mI > pre.oI + e.n) => (e.cost.h = 0 /\ AL(e) = 0 /\ SameSlot(post, pre)))
               /\ Chk("C02", "reserve_unsplit_is_incremental", e,
                      (small /\ ~IsSplit(pre)) => e.cost.h = 0)
          [] OTHER ->
@@ -449,7 +456,7 @@ H_Clone(e) ==
     IN
     /\ Frame(e, {d})
     /\ NoPanic(e)
-    /\ Chk("C11", "clone_source_unchanged", e, Post(e, s) = Pre(s))
+    /\ Chk("C11", "clone_source_unchanged", e, SameSlot(Post(e, s), Pre(s)))
     /\ (Alive(e.st, d) /\ IsFull(Pre(s)) /\ IsFull(Post(e, d))) =>
         LET Es == Cont(Pre(s))
             Ed == Cont(Post(e, d))
@@ -758,7 +765,7 @@ H_Fault(e) ==
     IN
     /\ Chk("C07", "only_the_injected_panic", e, Panicked(e) /\ e.res.class = "fuse")
     /\ Frame(e, W)
-    /\ (twoSlot /\ Alive(snap, s)) => Chk("C07,C11", "interrupted_clone_leaves_source_intact", e, Post(e, s) = Pre(s))
+    /\ (twoSlot /\ Alive(snap, s)) => Chk("C07,C11", "interrupted_clone_leaves_source_intact", e, SameSlot(Post(e, s), Pre(s)))
     /\ (~twoSlot /\ W # {} /\ Alive(snap, s) /\ Alive(e.st, s) /\ IsFull(Pre(s)) /\ IsFull(Post(e, s))) =>
         LET E == Cont(Pre(s))
             E2 == Cont(Post(e, s))
@@ -872,7 +879,7 @@ H_Serde(e) ==
     IN
     /\ Frame(e, {d})
     /\ NoPanic(e)
-    /\ Chk("C16", "serialize_leaves_source_unchanged", e, s # d => Post(e, s) = Pre(s))
+    /\ Chk("C16", "serialize_leaves_source_unchanged", e, s # d => SameSlot(Post(e, s), Pre(s)))
     /\ IsFull(Pre(s)) =>
         LET E == Cont(Pre(s)) IN
         /\ Chk("C16", "serialize_emits_exact_length", e,
